@@ -420,12 +420,12 @@ def suites(tier):
     large = 2000 if tier == "quick" else 10000
     return [
         Suite("pinball", check_pinball, strategy=pinball_cases(large),
-              examples={"quick": 800, "thorough": 8000}),
+              examples={"quick": 1300, "thorough": 8000}),
         Suite("minimiser", check_minimiser,
               strategy=minimiser_cases(300 if tier == "quick" else 600),
-              examples={"quick": 400, "thorough": 2500}),
+              examples={"quick": 650, "thorough": 2500}),
         Suite("mape-bias", check_mape, strategy=mape_cases(large),
-              examples={"quick": 700, "thorough": 6000}),
+              examples={"quick": 1100, "thorough": 6000}),
         Suite("shapes-invalid", check_invalid, cases=invalid_shape_cases,
               exhaustive=True),
     ]
